@@ -4,17 +4,21 @@ Streams:
   hist     : random histories (quick 200 x 60 ops) over the public read-only API on small generated files
              (props/c10_gen.py) and on shipped binaries: the SAME op list is applied to ONE live object; every
              answer is compared with the answer of the same query on a FRESHLY opened object (property) and —
-             for the operations the Lean state machine covers — with `Model.C10.step` run by the driver over the
-             pure parse tables of the file (correspondence: answers AND the abstract cache state after every op:
-             `_cu_offsets_map`, per-unit `_diemap`, `_parent`/`_terminator` links, line-program cache, the
-             position of the .debug_info stream)
-  exh      : thorough: every history up to depth 4 over a 14-op alphabet on two tiny files (every reachable abstract
+             for the operations the Lean state machine covers — with `Model.C10.xstep` (the base step inside the cache
+             layer) run by the driver over the pure parse tables of the file (correspondence: answers AND the abstract
+             cache state after every op: `_cu_offsets_map`, per-unit `_diemap`, `_parent`/`_terminator` links,
+             `_abbrevtable_cache` keys and the per-unit `_abbrev_table` memo, `_linetable_cache` keys with their
+             decoded flag, `entries` / `_entry_cache` keys of two CallFrameInfo objects that are kept, the position of
+             the .debug_info stream).  Tables, line-program headers / entries and CFI entries are compared by value
+             through per-file numbering of their canonical forms (`describe_x`).
+  exh      : thorough: every history up to depth 4 over a 14-op alphabet and up to depth 3 over 17 ops on two tiny files (every reachable abstract
              cache state x every operation; states/transitions counted from hashes of the private cache attributes,
              which are only read); quick: depth 2
   soak     : thorough: 2000-op random histories
   err      : corrupted copies of generated files (no .debug_addr under DW_FORM_addrx, a symbol table running past the
-             end of the file, a section that cannot be constructed): a query that raises must raise the same way every
-             time (regression for the four half-built-cache defects fixed for this property)
+             end of the file, a section that cannot be constructed, a last .debug_frame entry running past the end of
+             its section under a CallFrameInfo object that is kept): a query that raises must raise the same way every
+             time (regression for the five half-built-cache defects fixed for this property)
   seqrand  : sequential iteration on one object vs access by offset, in reverse order, on another: entry for entry
 
 An operation is a JSON list; `seek` operations reposition any of the shared streams adversarially, `it_new`/`it_next`
@@ -35,7 +39,11 @@ ASSUMPTIONS = ['io.BytesIO read/seek/tell semantics', 'bisect.bisect_right, list
                'offsets passed to get_CU_at / get_DIE_from_refaddr are valid unit / DIE starts (an invalid get_CU_at offset '
                'poisons the unit cache by design; out of scope as the design states)',
                'DIE / unit / line-program / CFI decoding itself is C04/C05/C06/C13; here only equality with a fresh object',
-               'Lean step: the parse functions are tables computed from a fresh object (pure in (file, offset) by construction)']
+               'Lean step: the parse functions are tables computed from a fresh object (pure in (file, offset) by construction)',
+               'cache layer: the CFI tables exist for sections whose entries tile the section (each entry ends where its length '
+               'field says; all generated and shipped files); a DIE parse that fails after loading the abbreviation table is not '
+               'recorded by the model (offsets are DIE starts of well-formed units)',
+               'CallFrameInfo objects that are kept are built with the public constructor, exactly as DWARFInfo.CFI_entries does']
 
 SHIPPED = ['dwarf_llpair.elf', 'dwarfv5_basic.elf', 'debug_info.elf']
 
@@ -131,6 +139,20 @@ def cfi_canon(entries):
     return out
 
 
+def cfi_entry_key(row):
+    """a canonical CFI entry without the link to its CIE (the link is reported as the CIE's offset)"""
+    return json.dumps(row[:-1], sort_keys=True, default=str) if row[0] != 'ZERO' else 'ZERO'
+
+
+def abbrev_canon(tbl):
+    """an AbbrevTable by value (`_abbrev_map` is only read)"""
+    return [[code, cv(d.decl), d.has_children()] for code, d in tbl._abbrev_map.items()]
+
+
+def lp_hdr_key(c):
+    return json.dumps({'start': c['start'], 'end': c['end'], 'hdr': c['hdr']}, sort_keys=True, default=str)
+
+
 # ----------------------------------------------------------------------------------------------- a session on one object
 INFO_STREAMS = ['elf', 'info', 'abbrev', 'str', 'line', 'frame', 'eh', 'aranges', 'pubnames']
 
@@ -145,6 +167,7 @@ class Session:
         self._di = None
         self._symtab = None
         self.iters = []          # [generator, kind, args, count]
+        self.cfiobj = {}         # eh -> a CallFrameInfo object that is kept (the public constructor DWARFInfo itself uses)
 
     @property
     def di(self):
@@ -166,6 +189,15 @@ class Session:
                'frame': di.debug_frame_sec, 'eh': di.eh_frame_sec, 'aranges': di.debug_aranges_sec,
                'pubnames': di.debug_pubnames_sec}[which]
         return None if sec is None else sec.stream
+
+    def cfi_object(self, eh):
+        if eh not in self.cfiobj:
+            from elftools.dwarf.callframe import CallFrameInfo
+            di = self.di
+            sec = di.eh_frame_sec if eh else di.debug_frame_sec
+            self.cfiobj[eh] = CallFrameInfo(stream=sec.stream, size=sec.size, address=sec.address, base_structs=di.structs,
+                                            for_eh_frame=eh)
+        return self.cfiobj[eh]
 
     def die_at(self, cu_off, off):
         return self.di.get_CU_at(cu_off).get_DIE_from_refaddr(off)
@@ -255,6 +287,14 @@ class Session:
             return cfi_canon(self.di.CFI_entries())
         if k == 'ehcfi':
             return cfi_canon(self.di.EH_CFI_entries())
+        if k == 'cfi_obj':
+            return cfi_canon(self.cfi_object(False).get_entries())
+        if k == 'ehcfi_obj':
+            return cfi_canon(self.cfi_object(True).get_entries())
+        if k == 'abbrev_cu':
+            return abbrev_canon(self.di.get_CU_at(op[1]).get_abbrev_table())
+        if k == 'abbrev_at':
+            return abbrev_canon(self.di.get_abbrev_table(op[1]))
         if k == 'aranges':
             ar = self.di.get_aranges()
             return None if ar is None else ar.cu_offset_at_addr(op[1])
@@ -281,6 +321,8 @@ class Session:
                             cu._abbrev_table is not None] for cu in di._cu_cache]
             st['abbrev'] = sorted(di._abbrevtable_cache)
             st['line'] = sorted((k, v._decoded_entries is not None) for k, v in di._linetable_cache.items())
+            st['cfiobj'] = [[False, []] if eh not in self.cfiobj else
+                            [self.cfiobj[eh].entries is not None, sorted(self.cfiobj[eh]._entry_cache)] for eh in (False, True)]
             if with_pos:
                 st['pos'] = [None if self.stream(w) is None else self.stream(w).tell() for w in INFO_STREAMS]
         elif with_pos:
@@ -405,6 +447,7 @@ def describe(data):
         d['pub_names'] = list(pn.keys())[:20]
         d['pubtab'] = [[k, e.cu_ofs, e.die_ofs] for k, e in pn.items()]
     d['pos0'] = di.debug_info_sec.stream.tell() if di.debug_info_sec else 0
+    describe_x(data, d)
     for w in INFO_STREAMS:
         stt = s.stream(w)
         if stt is not None:
@@ -415,7 +458,87 @@ def describe(data):
     return d
 
 
-NEUTRAL_OPS = {'sec_i', 'sec_n', 'seg_i', 'sym_i', 'sec_data', 'cfi', 'ehcfi', 'aranges'}
+MODEL_ITER_KINDS = ('cus', 'dies', 'children', 'siblings')
+def describe_x(data, d):
+    """the pure tables of the cache layer (abbreviation tables, line programs, CFI entries), every row read from a
+    FRESH object; canonical values are numbered per file (`xpay`) and the model handles the numbers"""
+    pays = {'abbrev': {}, 'lph': {}, 'lpe': {}, 'cfi': {}}
+
+    def pay(cat, key):
+        return pays[cat].setdefault(key, len(pays[cat]))
+    x = {}
+    s = Session(data)
+    di = s.di
+    x['abbrev_size'] = di.debug_abbrev_sec.size if di.debug_abbrev_sec else 0
+    cus = list(di.iter_CUs())
+    x['cu_abbrev'] = [[cu.cu_offset, cu['debug_abbrev_offset']] for cu in cus]
+    x['abbrev_tables'] = []
+    for o in sorted({o for _, o in x['cu_abbrev']}):
+        r = run_impl(lambda: abbrev_canon(Session(data).di.get_abbrev_table(o)))
+        if 'ok' in r:
+            x['abbrev_tables'].append([o, pay('abbrev', json.dumps(r['ok'], sort_keys=True, default=str))])
+    # line programs: per unit, on a fresh object, the header before and after the entries are decoded
+    keys = []
+    x['lp_keys'], parse_rows, decode_rows = [], {}, {}
+    for u, cu in zip(d['units'], cus):
+        k3 = [cu.structs.little_endian, cu.structs.dwarf_format, cu.structs.address_size]
+        if k3 not in keys:
+            keys.append(k3)
+        key = keys.index(k3)
+        x['lp_keys'].append([u['off'], key])
+        if u['stmt'] is None:
+            continue
+        s2 = Session(data)
+        r = run_impl(lambda: lp_canon(s2.di.line_program_for_CU(s2.di.get_CU_at(u['off'])), entries=False))
+        if 'ok' not in r or r['ok'] is None:
+            continue
+        row = [key, u['stmt'], pay('lph', lp_hdr_key(r['ok']))]
+        if parse_rows.setdefault((key, u['stmt']), row) != row:
+            raise RuntimeError('line program header at %d is not a function of (structs, offset)' % u['stmt'])
+        r = run_impl(lambda: lp_canon(s2.di.line_program_for_CU(s2.di.get_CU_at(u['off']))))
+        if 'ok' in r:
+            row = [key, u['stmt'], pay('lpe', json.dumps(r['ok']['entries'], sort_keys=True, default=str)), pay('lph', lp_hdr_key(r['ok']))]
+            if decode_rows.setdefault((key, u['stmt']), row) != row:
+                raise RuntimeError('line program at %d is not a function of (structs, offset)' % u['stmt'])
+    x['lp_parse'], x['lp_decode'] = list(parse_rows.values()), list(decode_rows.values())
+    # CFI: the entries of each section in order; an entry occupies [offset, offset + length + initial-length size)
+    for eh, name in ((False, 'cfi_d'), (True, 'cfi_e')):
+        sec = di.eh_frame_sec if eh else di.debug_frame_sec
+        if sec is None:
+            continue
+        s2 = Session(data)
+        r = run_impl(lambda: (lambda es: [cfi_canon(es), [None if type(e).__name__ == 'ZERO' else
+                                                          e.header.length + e.structs.initial_length_field_size() for e in es]])(
+            s2.di.EH_CFI_entries() if eh else s2.di.CFI_entries()))
+        if 'ok' not in r:
+            continue
+        rows, skips = r['ok']
+        heads, fdes, pos, tiled = [], [], 0, True
+        tag = {}
+        for row, skip in zip(rows, skips):
+            if row[0] != 'ZERO':
+                tag[row[1]] = pay('cfi', cfi_entry_key(row)) + 1
+        for row, skip in zip(rows, skips):
+            off = row[1]
+            tiled = tiled and off == pos
+            if row[0] == 'ZERO':
+                heads.append([off, 0, off + 4, 0, 0])
+                pos = off + 4
+                continue
+            pos = off + skip
+            if row[0] == 'CIE':
+                heads.append([off, 1, skip, off + skip, tag[off] - 1])
+            else:
+                heads.append([off, 2, row[-1], 0, 0])
+                ct = tag.get(row[-1], 0)
+                fdes.append([off, ct if eh else 0, ct, skip, off + skip, tag[off] - 1])
+        if tiled and pos >= sec.size:
+            x[name] = {'size': sec.size, 'heads': heads, 'fdes': fdes}
+    d['x'] = x
+    d['xpay'] = pays
+
+
+NEUTRAL_OPS = {'sec_i', 'sec_n', 'seg_i', 'sym_i', 'sec_data', 'aranges'}
 
 
 def model_compatible(op):
@@ -424,7 +547,7 @@ def model_compatible(op):
     if k in NEUTRAL_OPS or k in ('seek', 'it_next'):
         return True
     if k in ('take', 'all', 'it_new'):
-        return op[1] in ('cus', 'dies', 'children', 'secs', 'segs', 'syms') and not (k == 'it_new' and op[1] in ('secs', 'segs', 'syms'))
+        return op[1] in MODEL_ITER_KINDS + ('secs', 'segs', 'syms') and not (k == 'it_new' and op[1] in ('secs', 'segs', 'syms'))
     if k == 'ref':
         return isinstance(op[3], str)
     return k in MODEL_OPS
@@ -499,6 +622,15 @@ def alphabet(desc, rng, limit_dies=None, model_only=False):
         dd = pick_die(u, lambda x: x['refs'])
         return ['ref', u['off'], dd['off'], rng.choice(dd['refs'])] if dd['refs'] else ['top', u['off']]
 
+    def take_kids():
+        # the first n items / the full list of a children or sibling generator that is then abandoned
+        u = pick_unit()
+        kind = rng.choice(['children', 'siblings', 'siblings'])
+        dd = pick_die(u, (lambda x: x['ch']) if kind == 'children' else None)
+        if rng.random() < 0.3:
+            return ['all', kind, [u['off'], dd['off']]]
+        return ['take', kind, [u['off'], dd['off']], rng.choice([1, 2, 3])]
+
     def all_dies():
         u = pick_unit()
         if len(u['dies']) > K:
@@ -517,6 +649,7 @@ def alphabet(desc, rng, limit_dies=None, model_only=False):
         dw(lambda: (lambda u: ['siblings', u['off'], pick_die(u)['off']])(pick_unit())),
         dw(ref),
         dw(take_dies),
+        dw(take_kids),
         dw(all_dies),
         dw(it_new), dw(it_new),
         lambda: ['it_next', rng.randrange(8)], lambda: ['it_next', rng.randrange(8)], lambda: ['it_next', rng.randrange(8)],
@@ -524,6 +657,11 @@ def alphabet(desc, rng, limit_dies=None, model_only=False):
         dw(lambda: ['lp_hdr', pick_unit()['off']]),
         dw(lambda: ['cfi']) if desc.get('streams', {}).get('frame') else seek_op,
         dw(lambda: ['ehcfi']) if desc.get('streams', {}).get('eh') and desc.get('small') else seek_op,
+        dw(lambda: ['cfi_obj']) if desc.get('streams', {}).get('frame') else seek_op,
+        dw(lambda: ['ehcfi_obj']) if desc.get('streams', {}).get('eh') and desc.get('small') else seek_op,
+        dw(lambda: ['abbrev_cu', pick_unit()['off']]),
+        dw(lambda: ['abbrev_at', rng.choice([o for _, o in desc['x']['cu_abbrev']] + [desc['x']['abbrev_size'], desc['x']['abbrev_size'] + 5])])
+        if desc.get('x') else seek_op,
         dw(lambda: ['aranges', rng.choice([0, 0x1000, 0x1080, 0x10ff, 0x1100, 0x2000, 0x2001, 0x5000])]) if desc.get('streams', {}).get('aranges') else seek_op,
         dw(lambda: ['pubname', rng.choice(desc['pub_names'] + ['nope'])]) if desc.get('pub_names') else seek_op,
         seek_op, seek_op, seek_op, seek_op, seek_op,
@@ -578,7 +716,9 @@ FINDINGS = {'lineprogram-define-file-header': is_define_file_case}
 
 # ----------------------------------------------------------------------------------------------- Lean correspondence
 MODEL_OPS = {'cu_at', 'cu_cont', 'top', 'die', 'refaddr', 'children', 'parent', 'lp', 'lp_hdr', 'seek', 'it_new', 'it_next',
-             'take', 'all', 'sec_idx', 'sym_n', 'siblings', 'ref', 'pubname'}
+             'take', 'all', 'sec_idx', 'sym_n', 'siblings', 'ref', 'pubname',
+             'abbrev_cu', 'abbrev_at', 'cfi', 'ehcfi', 'cfi_obj', 'ehcfi_obj'}
+CFI_OPS = {'cfi': 'cfi_d', 'cfi_obj': 'cfi_d', 'ehcfi': 'cfi_e', 'ehcfi_obj': 'cfi_e'}
 
 
 def model_request(desc, ops):
@@ -588,19 +728,28 @@ def model_request(desc, ops):
              for u in desc['units']]
     return {'p': 'C10', 'k': 'hist', 'size': desc.get('info_size', 0), 'units': units,
             'secs': desc.get('sec_list', []), 'syms': desc.get('sym_list', []), 'pos0': desc.get('pos0', 0), 'ops': ops,
-            'pubnames': desc.get('pubtab')}
+            'pubnames': desc.get('pubtab'), 'x': desc.get('x', {})}
 
 
-def model_view_answer(op, ans, stmt_of=None):
+def model_view_answer(op, ans, stmt_of=None, iter_kind=None, pays=None):
     """project a live answer to what the model answers (offsets)"""
     if 'err' in ans:
         # `raise StopIteration()` inside the `iter_siblings` generator reaches the caller as RuntimeError (PEP 479);
         # the model mirrors the statement that is written
-        if op[0] == 'siblings' and ans['err'] == 'other:RuntimeError':
+        if ans['err'] == 'other:RuntimeError' and (op[0] == 'siblings' or (op[0] in ('take', 'all') and op[1] == 'siblings')
+                                                   or (op[0] == 'it_next' and iter_kind == 'siblings')):
             return {'err': 'stopIteration'}
         return ans
     a = ans['ok']
     k = op[0]
+    if k in ('abbrev_cu', 'abbrev_at'):
+        return {'ok': pays['abbrev'].get(json.dumps(a, sort_keys=True, default=str), -1)}
+    if k in CFI_OPS:
+        return {'ok': [['Z', r[1]] if r[0] == 'ZERO' else
+                       [r[0][0], r[1], pays['cfi'].get(cfi_entry_key(r), -1)] + ([r[-1]] if r[0] == 'FDE' else []) for r in a]}
+    if k in ('lp', 'lp_hdr') and a is not None:
+        return {'ok': [stmt_of[op[1]], pays['lph'].get(lp_hdr_key(a), -1),
+                       pays['lpe'].get(json.dumps(a['entries'], sort_keys=True, default=str), -1) if k == 'lp' else None]}
     if k == 'siblings':
         return {'ok': [x['off'] for x in a]}
     if k == 'ref':
@@ -626,12 +775,15 @@ def model_view_answer(op, ans, stmt_of=None):
     return {'ok': a}
 
 
-def model_supported(op):
+def model_supported(op, desc=None):
     k = op[0]
     if k not in MODEL_OPS:
         return False
+    if k in CFI_OPS:
+        # the CFI tables exist when the entries of the section tile it (every entry ends where its length says)
+        return desc is not None and CFI_OPS[k] in desc.get('x', {})
     if k in ('take', 'all', 'it_new'):
-        return op[1] in ('cus', 'dies', 'children')
+        return op[1] in MODEL_ITER_KINDS
     if k == 'ref':
         return isinstance(op[3], str)
     return True
@@ -642,11 +794,11 @@ def check_model(ctx, stream, data, desc, ops, live_answers, states, fi):
     mops = []
     idx = []
     # iterators of unsupported kinds would shift the handle numbering: only histories whose iterators are all supported
-    if any(op[0] == 'it_new' and op[1] not in ('cus', 'dies', 'children') for op in ops):
+    if any(op[0] == 'it_new' and op[1] not in MODEL_ITER_KINDS for op in ops):
         ctx.out.count('model:skipped-iter-kind')
         return
     for i, op in enumerate(ops):
-        if model_supported(op) and not (op[0] == 'seek' and op[1] != 'info'):
+        if model_supported(op, desc) and not (op[0] == 'seek' and op[1] != 'info'):
             mops.append(op)
             idx.append(i)
     if not mops:
@@ -658,7 +810,9 @@ def check_model(ctx, stream, data, desc, ops, live_answers, states, fi):
         op = ops[i]
         m = r['steps'][j]
         if op[0] not in ('seek', 'it_new'):
-            want = model_view_answer(op, live_answers[i], {u['off']: u['stmt'] for u in desc['units']})
+            its = states[i].get('iters') or []
+            ikind = its[op[1] % len(its)][0] if op[0] == 'it_next' and its else None
+            want = model_view_answer(op, live_answers[i], {u['off']: u['stmt'] for u in desc['units']}, ikind, desc['xpay'])
             if op[0] == 'sym_n' and not desc['sym_canon']:
                 continue
             if op[0] == 'sym_n' and 'ok' in m['ans'] and m['ans']['ok'] is not None:
@@ -672,8 +826,12 @@ def check_model(ctx, stream, data, desc, ops, live_answers, states, fi):
         live_view = {'cumap': st['cumap'],
                      'units': [[u[0], u[1], [[d[0], -1 if d[1] is None else d[1], -1 if d[2] is None else d[2]] for d in u[2]]] for u in st['units']],
                      'line': [[k, dec] for k, dec in st['line']],
-                     'pos': st['pos'][1]}
-        mv = {'cumap': m['st']['cumap'], 'units': m['st']['units'], 'line': m['st']['line'], 'pos': m['st']['pos']}
+                     'pos': st['pos'][1],
+                     'abbrev': st['abbrev'], 'memo': sorted(u[0] for u in st['units'] if u[3]),
+                     'cfiobj': [[a, b] if (w in desc.get('x', {})) else None for (a, b), w in zip(st['cfiobj'], ('cfi_d', 'cfi_e'))]}
+        mv = {'cumap': m['st']['cumap'], 'units': m['st']['units'], 'line': m['st']['line'], 'pos': m['st']['pos'],
+              'abbrev': m['st']['abbrev'], 'memo': m['st']['memo'],
+              'cfiobj': [c if (w in desc.get('x', {})) else None for c, w in zip(m['st']['cfiobj'], ('cfi_d', 'cfi_e'))]}
         # lp entries are decoded by the canonicaliser of `lp`, which the model mirrors as a flag
         if live_view != mv:
             ctx.out.violation('correspondence', stream, {'file': fi, 'ops': ops[:i + 1], 'i': i, 'what': 'state'}, got=live_view, model=mv)
@@ -739,6 +897,8 @@ def run_hist(ctx, stream, files, nhist, nops, model=True, model_every=2):
             ops = [draw() for _ in range(nops)]
             for op in ops:
                 ctx.out.count('op:' + op[0])
+                if op[0] in ('take', 'all', 'it_new'):
+                    ctx.out.count('gen:%s:%s' % (op[0], op[1]))
             bad, states, answers = run_history(data, ops, fresh, collect_states=True)
             for i, op in enumerate(ops):
                 ctx.out.case({'f': fi, 'h': h, 'i': i, 'op': op}, nontrivial=op[0] != 'seek')
@@ -776,6 +936,18 @@ def corrupt(data, kind):
         else:
             b[off + 32:off + 40] = struct.pack(E + 'Q', es * 100000)
         return bytes(b)
+    if kind == 'cfi-last-entry-too-long':
+        # the length field of the last entry of .debug_frame runs past the end of the section: parsing it raises
+        # after the entries before it (and the CIE) have been put into CallFrameInfo._entry_cache
+        sec = e.get_section_by_name('.debug_frame')
+        base, size = sec['sh_offset'], sec['sh_size']
+        off = last = 0
+        while off + 4 <= size:
+            last = off
+            off += 4 + struct.unpack(E + 'I', bytes(b[base + off:base + off + 4]))[0]
+        ln = struct.unpack(E + 'I', bytes(b[base + last:base + last + 4]))[0]
+        b[base + last:base + last + 4] = struct.pack(E + 'I', ln + 0x40)
+        return bytes(b)
     if kind == 'bad-section':
         i = names.index('.debug_str')
         off = shoff + i * shentsize + 4
@@ -791,12 +963,16 @@ def run_err(ctx):
         fi = ['gen', 'err', k, False]
         data, gd = file_for(ctx, fi)
         rng = ctx.rng('err/%d' % k)
-        for kind in ('no-debug-addr', 'symtab-too-long', 'bad-section'):
+        for kind in ('no-debug-addr', 'symtab-too-long', 'bad-section', 'cfi-last-entry-too-long'):
             bad_data = corrupt(data, kind)
             units = [u['off'] for u in gd['units']]
             pool = [['top', o] for o in units] + [['sym_n', 'main'], ['sym_n', 'nope'], ['sec_idx', '.symtab'], ['sec_n', '.strtab'],
                                                   ['sec_idx', '.text'], ['sym_i', 1], ['take', 'dies', [units[0]], 2], ['lp', units[0]],
                                                   ['seek', 'elf', rng.randrange(0, len(data))]]
+            if kind == 'cfi-last-entry-too-long':
+                # a CallFrameInfo that is kept and asked again after it raised, interleaved with seeks on its stream
+                pool = [['cfi_obj'], ['cfi_obj'], ['cfi'], ['ehcfi_obj'], ['abbrev_cu', units[0]], ['top', units[0]],
+                        ['seek', 'frame', rng.randrange(0, 64)]]
             ops = [rng.choice(pool) for _ in range(12)]
             fresh = Fresh(bad_data)
             bad, _, _ = run_history(bad_data, ops, fresh)
@@ -864,10 +1040,14 @@ def exh_alphabet(desc):
         ['lp', u0['off']],
         ['seek', 'info', mid0 + 1],
         ['sym_n', 'main'],
+        ['abbrev_cu', u1['off']],
+        ['cfi_obj'],
+        ['lp_hdr', u1['off']],
     ]
 
 
-def run_exh(ctx, depth):
+def run_exh(ctx, depth, nalpha=None):
+    """all op sequences up to `depth` over the first `nalpha` ops of the alphabet (all of them by default)"""
     total = 0
     trans = set()
     for k in range(2):
@@ -876,7 +1056,7 @@ def run_exh(ctx, depth):
         desc = describe(data)
         desc['small'] = True
         fresh = Fresh(data)
-        alpha = exh_alphabet(desc)
+        alpha = exh_alphabet(desc)[:nalpha]
         for d in range(1, depth + 1):
             for seq in itertools.product(range(len(alpha)), repeat=d):
                 if d < depth and False:
@@ -917,7 +1097,13 @@ def run(ctx):
     files = [['gen', 'hist', k, False] for k in range(ngen)]
     run_hist(ctx, 'hist', files, 5 if quick else 8, 60)
     run_hist(ctx, 'hist', [['shipped', n] for n in SHIPPED], 10 if quick else 40, 60)
-    run_exh(ctx, 2 if quick else 4)
+    if quick:
+        run_exh(ctx, 2)
+    else:
+        # the ops on the caches of the fourth wave (abbreviation tables, CallFrameInfo, line-program header) are the last
+        # three of the alphabet: depth 4 over the first 14 ops as before, depth 3 over all 17
+        run_exh(ctx, 4, 14)
+        run_exh(ctx, 3)
     run_err(ctx)
     run_seqrand(ctx)
     if not quick:
